@@ -181,6 +181,64 @@ def run(ctx):
                 what = ("the engine died (rc=%s): %s" % (r["rc"], r["stderr"][-200:].strip())) if b is None else ("answered %s, which is not in the list" % b)
                 ctx.violation("UCI [%s]: '%s' on '%s': %s" % (shape, script[-1], f, what),
                               {"session": script, "log": r["log"][-8:], "rc": r["rc"], "stderr": r["stderr"][-1000:]}, key="c09:uci:%s:%s:%s" % (shape, f, " ".join(l)))
+    # ---- the go-command parser itself: what Uci::go_command hands to Search (dumped at go entry by the hook build of the real UCI
+    #      loop) against the extracted model Engine/GoParse.v, on parameter groups in random ORDER (theorem go_parameter_order_is_irrelevant),
+    #      repeated keywords, several searchmoves lists, unknown tokens, missing / non-numeric values ----
+    udrv = harness("uci_driver")
+    start_moves = "a2a3 a2a4 b2b3 b2b4 c2c3 c2c4 d2d3 d2d4 e2e3 e2e4 f2f3 f2f4 g2g3 g2g4 h2h3 h2h4 b1a3 b1c3 g1f3 g1h3".split()
+    PROMO_BASE = "8/4P3/8/8/8/8/k7/4K3 w - - 0 1"
+    promo_moves = "e7e8q e7e8r e7e8b e7e8n e1d1 e1d2 e1e2 e1f2 e1f1".split()
+    def group(kind, moves=start_moves):
+        if kind in ("ponder", "infinite"):
+            return [kind]
+        if kind == "searchmoves":
+            return ["searchmoves"] + rng.sample(moves, rng.choice([1, 1, 2, 3, len(moves)]))
+        v = rng.choice([0, 1, 2, 5, 40, 41, 1000, 60000, 2147483647, -1, -50]) if kind != "nodes" else rng.choice([0, 1, 5000, 2147483648, 9007199254740993, -3])
+        return [kind, str(v)]
+    KINDS = ["ponder", "infinite", "searchmoves", "wtime", "btime", "winc", "binc", "movestogo", "depth", "nodes", "mate", "movetime"]
+    pcmds = []
+    pbase = []
+    for _ in range(150 if q else 3000):
+        ks = rng.sample(KINDS, rng.randrange(1, 8))
+        r = rng.random()
+        if r < 0.15:
+            ks.append(rng.choice(ks))                     # a repeated keyword: the later value wins / a second list is appended
+        base = PROMO_BASE if rng.random() < 0.4 else None
+        toks = sum([group(k, promo_moves if base else start_moves) for k in ks], [])
+        if 0.15 <= r < 0.25:
+            toks.insert(rng.randrange(len(toks) + 1), rng.choice(["foo", "Depth", "e2e9", "startpos"]))      # unknown token
+        if 0.25 <= r < 0.30:
+            toks += [rng.choice(["depth", "wtime", "nodes"])]                                                   # value missing at the end
+        if 0.30 <= r < 0.35:
+            toks += [rng.choice(["depth", "movetime"]), rng.choice(["abc", "-", "x1"]), "wtime", "777"]          # non-numeric value
+        pcmds.append(toks)
+        pbase.append(base)
+    pres = []
+    def dump(tb):
+        toks, base = tb
+        r = run_script(udrv, ["position fen " + base if base else "position startpos", "go " + " ".join(toks)], env={"VERIF_DUMP_LIMITS": "1"}, go_timeout=30)
+        ls = [x for x in r["log"] if "VERIF limits" in x]
+        return (ls[-1].split("VERIF limits ", 1)[1].strip() if ls else None, r)
+    with concurrent.futures.ThreadPoolExecutor(max_workers=NPROC) as ex:
+        pres = list(ex.map(dump, zip(pcmds, pbase)))
+    rc_, mres, e_ = run_lines(model, ["goparse " + " ".join(t) for t in pcmds])
+    npar = 0
+    for toks, (got, r), exp in zip(pcmds, pres, mres):
+        npar += 1
+        def norm(x, has_mate):
+            d = dict(kv.split("=", 1) for kv in (x or "").split())
+            if not has_mate:
+                d.pop("mate", None)         # Limits::mate is not initialised when the keyword is absent (and never read)
+            return d
+        has_mate = exp is not None and "mate=-" not in exp
+        if got is None or norm(got, has_mate) != norm(exp, has_mate):
+            nviol += 1
+            if nviol <= 6:
+                ctx.violation("go-command parser differs from the model (correspondence 'goparse'): 'go %s' -> engine [%s] model [%s]" % (" ".join(toks), got, exp),
+                              {"session": ["position startpos", "go " + " ".join(toks)], "engine": got, "model": exp, "log": r["log"][-6:], "stderr": r["stderr"][-500:]},
+                              key="c09:goparse:" + " ".join(toks), no_input=(got is not None))
+    ctx.notes["go_parser_commands_compared"] = npar
+    ngo += npar
     ctx.notes["uci_level_searchmoves_sessions"] = len(jobs)
     ctx.cov["evaluations"] = ngo
     ctx.cov["distinct_nontrivial"] = len(set(drive_cases))
